@@ -192,6 +192,12 @@ func runC03(r *rep.R) {
 			histExploreWith(r, "C03", histCfg{Suite: s, InSession: true, Ops: append(append([]int{}, long[:40]...), opClose), Horizon: 2, Alphabet: "retry", MenuOps: []int{0, 13, 27, 39}}, 1, &idx, judge)
 		}
 	}
+	// the same over the library's real transport and a loopback socket: what
+	// the BMC receives there (a datagram the transport may send on its own is a
+	// datagram with a used IV and sequence number) and the in-memory run must agree
+	for _, oi := range []int{opGetDeviceID, opPowerReading, c03Ops[20], opSensorReading} {
+		histConform(r, "C03", histCfg{Suite: suites[0], InSession: true, Ops: []int{oi, opClose}, Horizon: 2, Alphabet: "retry"}, 1, &idx)
+	}
 	r.Bound("long_session_commands", len(long))
 	r.Bound("suites", len(suites))
 	r.Bound("command_variants", len(c03Ops))
@@ -201,7 +207,7 @@ func runC03(r *rep.R) {
 
 // histExploreWith is histExplore with a caller-supplied oracle.
 func histExploreWith(r *rep.R, prop string, cfg histCfg, bound int, idx *int64, judge func(histCfg, *histObs) []finding) {
-	tag := fmt.Sprintf("%s/%v/%v/%v/%s/%d/%s/%v/%v", prop, cfg.Suite, cfg.InSession, cfg.Ops, cfg.Alphabet, cfg.Horizon, cfg.HSAlphabet, cfg.Discover, cfg.MenuOps)
+	tag := fmt.Sprintf("%s/%v/%v/%v/%s/%d/%s/%v/%v/%v", prop, cfg.Suite, cfg.InSession, cfg.Ops, cfg.Alphabet, cfg.Horizon, cfg.HSAlphabet, cfg.Discover, cfg.MenuOps, cfg.Prior)
 	e := &env.Explorer{R: r, Bound: bound, Scenario: tag, Idx: idx,
 		Run: func(ch *env.Chooser) any { return runHistory(cfg, ch) },
 	}
